@@ -1163,7 +1163,8 @@ def dump_mir_autoreload(repo, out_dir):
 
 def check_lock_held_at_creator(fn):
     """acquire_env: the MutexGuard of the cache is held (H = 1) at the calls of the creator, of
-    clear_templates and of prepare_and_mark_reload: H +1 where a Mutex::lock result is unwrapped into a guard,
+    clear_templates, of prepare_and_mark_reload and of should_reload (the flag is read under the lock, so a
+    request cannot be consumed by a stale answer): H +1 where a Mutex::lock result is unwrapped into a guard,
     -1 where a guard local is dropped (drop terminator or mem::drop call)."""
     adj, preds = cfg(fn)
     guards = set()
@@ -1190,7 +1191,7 @@ def check_lock_held_at_creator(fn):
         t = blk['term']
         dst, callee = call_of(t)
         if callee and re.search(r'as Fn<\(Notifier,\)>>::call\(|Environment::<[^>]*>::clear_templates\(|Notifier::prepare_and_mark_reload\(|Notifier::\w*reload\w*\(', callee) \
-                and not re.search(r'Notifier::should_reload\(|Notifier::fast_reload\(', callee):
+                and not re.search(r'Notifier::fast_reload\(', callee):
             need.append(bid)
         for label, tgt in adj[bid]:
             if fn['blocks'][tgt]['term'] == 'return;':
@@ -1219,11 +1220,12 @@ def check_lock_held_at_creator(fn):
         return 'sat', None, dt, stats
     if r != z3.unsat:
         return str(r), None, dt, stats
-    return 'unsat', dict(kind='the cache lock is not held at the creator / clear_templates / flag-reset call on some path', calls=[]), dt, stats
+    return 'unsat', dict(kind='the cache lock is not held at the creator / clear_templates / flag-read / flag-reset call on some path', calls=[]), dt, stats
 
 
-def check_request_sets_flag(fn, flag_index):
-    """request_reload: on EVERY path on which the notifier handle exists the flag field is set to true."""
+def check_request_sets_flag(fn, flag_index, value='true', what='request_reload can return without having set the flag although the notifier exists'):
+    """request_reload: on EVERY path on which the notifier handle exists the flag field is set to true.
+    (with value='false': prepare_and_mark_reload resets it on every path)"""
     adj, preds = cfg(fn)
     s_ = z3.Solver()
     s_.set('timeout', 30000)
@@ -1239,7 +1241,7 @@ def check_request_sets_flag(fn, flag_index):
     returns = []
     for bid in adj:
         blk = fn['blocks'][bid]
-        sets_flag = any(re.match(r'\(\(\*_\d+\)\.%d: bool\) = const true;' % flag_index, st) for st in blk['stmts'])
+        sets_flag = any(re.match(r'\(\(\*_\d+\)\.%d: bool\) = const %s;' % (flag_index, value), st) for st in blk['stmts'])
         sets += 1 if sets_flag else 0
         for label, tgt in adj[bid]:
             if isinstance(label, tuple):
@@ -1261,7 +1263,28 @@ def check_request_sets_flag(fn, flag_index):
         return 'sat', None, dt, stats
     if r not in (z3.sat, z3.unsat):
         return str(r), None, dt, stats
-    return 'unsat', dict(kind='request_reload can return without having set the flag although the notifier exists', calls=[]), dt, stats
+    return 'unsat', dict(kind=what, calls=[]), dt, stats
+
+
+def check_poll_leaves_flag(fn, flag_index):
+    """should_reload only reads the flag: no store to the field and no mutable borrow of it (mem::take / replace)"""
+    writes = []
+    for bid, blk in fn['blocks'].items():
+        if blk['cleanup']:
+            continue
+        for st in blk['stmts']:
+            if re.match(r'\(\(\*_\d+\)\.%d: bool\) = ' % flag_index, st) or re.search(r'= &mut \(\(\*_\d+\)\.%d: bool\);' % flag_index, st):
+                writes.append((bid, st))
+    s_ = z3.Solver()
+    w = z3.Int('flag_writes_in_poll')
+    s_.add(w == len(writes), w != 0)
+    t0 = time.time()
+    r = s_.check()
+    dt = time.time() - t0
+    stats = dict(blocks=len(fn['blocks']), flag_writes=len(writes))
+    if r == z3.unsat:
+        return 'sat', None, dt, stats
+    return 'unsat', dict(kind='should_reload changes the pending flag (%s): a request that is pending when the poll is skipped or repeated is lost or acted on twice' % writes[0][1], calls=[]), dt, stats
 
 
 def analyse_autoreload(repo, out_dir):
@@ -1282,6 +1305,18 @@ def analyse_autoreload(repo, out_dir):
     else:
         v, info, dt, stats = check_request_sets_flag(parse_function(t), fields.index('should_reload'))
         out.append(dict(function='request_reload', resource='request_sets_flag', spec={}, verdict=v, z3_s=round(dt, 3), conflict=(info or {}).get('kind'), **stats))
+    if 'should_reload' in fields:
+        fi = fields.index('should_reload')
+        t = function_text(mir, r'^fn <impl at [^>]*>::prepare_and_mark_reload\(')
+        t2 = function_text(mir, r'^fn <impl at [^>]*>::should_reload\(')
+        if t is None or t2 is None:
+            out.append(dict(function='prepare_and_mark_reload/should_reload', verdict='missing'))
+        else:
+            v, info, dt, stats = check_request_sets_flag(parse_function(t), fi, value='false',
+                                                         what='prepare_and_mark_reload can return without having reset the pending flag: the request it serves stays pending and the creator runs again without a new request')
+            out.append(dict(function='prepare_and_mark_reload', resource='flag_discipline', spec={}, verdict=v, z3_s=round(dt, 3), conflict=(info or {}).get('kind'), **stats))
+            v, info, dt, stats = check_poll_leaves_flag(parse_function(t2), fi)
+            out.append(dict(function='should_reload', resource='flag_discipline', spec={}, verdict=v, z3_s=round(dt, 3), conflict=(info or {}).get('kind'), **stats))
     return out
 
 
